@@ -8,6 +8,7 @@ Decides by bit-provenance abstract interpretation (finite lattice, no solver):
     starting from related states (abstraction: Rust F is read through get_reg)
   3 representation invariant of the Rust file (F / FC / FZ mirrors agree) is preserved by every write
   4 snapshot capture/apply coverage (shared with C16.2) and collect/apply_registers masks
+  5 every register captured by CPURegistersSnapshot.from_registers is written back whole by apply_to
 Because each write is decided for an arbitrary (symbolic) prior state and the invariant is inductive, the law extends to all
 finite write sequences.
 """
